@@ -82,6 +82,11 @@ theorem shop_named : named atCid shopA ⟨"shop", "kv", ["me"]⟩ = true := by
   simp only [this, parse_shop]
   decide
 
+theorem canon_shop : canon atCid shopA = shopA :=
+  canon_of_printed (by
+    have : print shopA = "/orbitdb/@shop.kv.me/shop" := by decide
+    rw [this]; exact parse_shop)
+
 theorem named_s1 : Named atCid s1 shopA := named_of_fetch (m0 := ⟨"shop", "kv", ["me"]⟩) (by decide) shop_named
 theorem named_s2 : Named atCid s2 shopA := named_of_fetch (m0 := ⟨"shop", "kv", ["me"]⟩) (by decide) shop_named
 
@@ -89,40 +94,41 @@ theorem named_s2 : Named atCid s2 shopA := named_of_fetch (m0 := ⟨"shop", "kv"
 example : openDB atCid tH s1 "/orbitdb/@shop.kv.me/shop" true false "log" false =
     (.ok (shopA, "kv", ["me"]), s1) := by
   show «open» atCid tH s1 "/orbitdb/@shop.kv.me/shop" _ = _
-  rw [open_valid _ parse_shop named_s1]; decide
+  rw [open_valid _ parse_shop named_s1, canon_shop]; decide
 example : openDB atCid tH s1 "/orbitdb/@shop.kv.me/shop" false true "" true =
     (.ok (shopA, "kv", ["me"]), s1) := by
   show «open» atCid tH s1 "/orbitdb/@shop.kv.me/shop" _ = _
-  rw [open_valid _ parse_shop named_s1]; decide
+  rw [open_valid _ parse_shop named_s1, canon_shop]; decide
 
 /-- `create_then_open_same` applies to the run above -/
 example : ∀ o', «open» atCid tH s1 (print shopA) o' = (.ok (shopA, "kv", ["me"]), s1) :=
   (create_then_open_same (isCid := atCid) (H := tH) s0 s1 "shop" "kv" {} shopA "kv" ["me"]
     (by decide) (by decide) create_shop).1
 
-/-- the other instance: plain `Open` succeeds, local-only `Open` is refused -- even after the
-successful plain one (U1) -/
+/-- the other instance: plain `Open` succeeds and records the database; a local-only `Open` is refused
+before it and succeeds after it (finding F53; it was refused: U1) -/
 example : openDB atCid tH s2 "/orbitdb/@shop.kv.me/shop" false false "" false =
-    (.ok (shopA, "kv", ["me"]), s2) := by
+    (.ok (shopA, "kv", ["me"]), addLocal s2 shopA) := by
   show «open» atCid tH s2 "/orbitdb/@shop.kv.me/shop" _ = _
-  rw [open_valid _ parse_shop named_s2]; decide
+  rw [open_valid _ parse_shop named_s2, canon_shop]; decide
 example : openDB atCid tH s2 "/orbitdb/@shop.kv.me/shop" true false "" false =
     (.error .notLocal, s2) := by
   show «open» atCid tH s2 "/orbitdb/@shop.kv.me/shop" _ = _
-  rw [open_valid _ parse_shop named_s2]; decide
-example : openDB atCid tH (openDB atCid tH s2 "/orbitdb/@shop.kv.me/shop" false false "" false).2
-    "/orbitdb/@shop.kv.me/shop" true false "" false = (.error .notLocal, s2) := by
-  have h1 : (openDB atCid tH s2 "/orbitdb/@shop.kv.me/shop" false false "" false).2 = s2 :=
-    open_keeps_state s2 _ _ shopA parse_shop
-  rw [h1]
-  show «open» atCid tH s2 "/orbitdb/@shop.kv.me/shop" _ = _
-  rw [open_valid _ parse_shop named_s2]; decide
+  rw [open_valid _ parse_shop named_s2, canon_shop]; decide
+example : (openDB atCid tH (openDB atCid tH s2 "/orbitdb/@shop.kv.me/shop" false false "" false).2
+    "/orbitdb/@shop.kv.me/shop" true false "" false).1 = .ok (shopA, "kv", ["me"]) := by
+  have h1 : (openDB atCid tH s2 "/orbitdb/@shop.kv.me/shop" false false "" false).1 = .ok (shopA, "kv", ["me"]) := by
+    show («open» atCid tH s2 "/orbitdb/@shop.kv.me/shop" _).1 = _
+    rw [open_valid _ parse_shop named_s2, canon_shop]; decide
+  exact open_remote_then_localonly_succeeds s2 _ _ _ shopA _ parse_shop named_s2 (by
+    have : print shopA = "/orbitdb/@shop.kv.me/shop" := by decide
+    rw [this]; exact parse_shop) h1
 
 /-- a manifest nobody serves -/
 example : openDB atCid tH s0 "/orbitdb/@shop.kv.me/shop" false false "" false =
     (.error .noManifest, s0) := by
   show «open» atCid tH s0 "/orbitdb/@shop.kv.me/shop" _ = _
-  rw [open_valid _ parse_shop (named_of_no_manifest (by decide))]; decide
+  rw [open_valid _ parse_shop (named_of_no_manifest (by decide)), canon_shop]; decide
 /-- a manifest of a type this instance has not registered (`s2` knows `kv` only) -/
 example : («open» atCid tH { s2 with net := [("@x", ⟨"x", "log", []⟩)] } "/orbitdb/@x/x" {}).1 =
     .error .unsupported := by
@@ -132,7 +138,9 @@ example : («open» atCid tH { s2 with net := [("@x", ⟨"x", "log", []⟩)] } "
       unfold named
       have : joinAddr (⟨"@x", "x"⟩ : Addr).root "x" = "/orbitdb/@x/x" := by decide
       simp only [this, hpx]
-      decide))]; decide
+      decide)), canon_of_printed (a := ⟨"@x", "x"⟩) (by
+        have : print (⟨"@x", "x"⟩ : Addr) = "/orbitdb/@x/x" := by decide
+        rw [this]; exact hpx)]; decide
 /-- **the path of the address is compared with the manifest's name** (finding F52; it was not: U7):
 `/orbitdb/<root of "shop">/anything/else` is refused, it names no database -/
 example : openDB atCid tH s2 "/orbitdb/@shop.kv.me/anything/else" false false "" false =
